@@ -362,8 +362,16 @@ func (t Transport) buildEnv(r *http.Request) (envVars, error) {
 		env[key] = repl.ReplaceAll(value, "")
 	}
 
-	// Add all HTTP headers to env variables
+	// Add all HTTP headers to env variables, except fields spelled with
+	// underscores or spaces: they would get the same variable name as
+	// the field spelled with hyphens (X_Forwarded_For and X-Forwarded-For
+	// both become HTTP_X_FORWARDED_FOR) and, depending on map order,
+	// override or stand in for headers this proxy sets or removes; like
+	// Apache httpd and nginx, do not pass such ambiguous fields on
 	for field, val := range r.Header {
+		if strings.ContainsAny(field, "_ ") {
+			continue
+		}
 		header := strings.ToUpper(field)
 		header = headerNameReplacer.Replace(header)
 		env["HTTP_"+header] = strings.Join(val, ", ")
